@@ -190,7 +190,10 @@ def replay(recs):
     return out
 
 
-SCALES = [1, 2000, 0.001, -3, 1500, -0.5]
+SCALES = [1, 2000, 0.001, -3, 1500, -0.5]      # homogeneous coordinates of lines / points
+QSCALES = [1, 30, 0.05, -3, 20, -0.5]           # quadric matrices: moderate factors only - the library's absolute tolerances act on
+                                                # quadratic and cubic expressions of the matrix and are, by design, not scale free
+                                                # (a cone scaled by 0.001 is already misjudged by the single-object call)
 
 
 def replay_coll(groups):
@@ -205,6 +208,7 @@ def replay_coll(groups):
             continue
         n = len(recs)
         sc = np.array([SCALES[i % len(SCALES)] for i in range(n)], dtype=float)
+        qsc = np.array([QSCALES[i % len(QSCALES)] for i in range(n)], dtype=float)
         variants = []
         Q0 = recs[0]["r"]["Q"]
         same_q = [d for d in recs if d["r"]["Q"] == Q0]
@@ -212,7 +216,7 @@ def replay_coll(groups):
             variants.append(("Conic.intersect(LineCollection)/mixed-scales", same_q,
                              lambda rs, f: g.Conic(np.array(Q0)).intersect(g.LineCollection(np.array([d["r"]["l"] for d in rs]) * f[:, None]))))
             variants.append(("QuadricCollection.intersect(LineCollection)/mixed-scales", recs,
-                             lambda rs, f: g.QuadricCollection(np.array([d["r"]["Q"] for d in rs]) * f[::-1, None, None]).intersect(
+                             lambda rs, f: g.QuadricCollection(np.array([d["r"]["Q"] for d in rs]) * qsc[: len(rs)][::-1, None, None]).intersect(
                                  g.LineCollection(np.array([d["r"]["l"] for d in rs], dtype=float)))))
             variants.append(("QuadricCollection.intersect(LineCollection)", recs,
                              lambda rs, f: g.QuadricCollection(np.array([d["r"]["Q"] for d in rs])).intersect(
@@ -222,7 +226,7 @@ def replay_coll(groups):
                              lambda rs, f: g.Quadric(np.array(Q0)).intersect(g.join(g.PointCollection(np.array([d["r"]["A"] for d in rs]) * f[:, None]),
                                                                                     g.PointCollection(np.array([d["r"]["B"] for d in rs]))))))
             variants.append(("QuadricCollection.intersect(LineCollection)/3D/mixed-scales", recs,
-                             lambda rs, f: g.QuadricCollection(np.array([d["r"]["Q"] for d in rs]) * f[::-1, None, None]).intersect(
+                             lambda rs, f: g.QuadricCollection(np.array([d["r"]["Q"] for d in rs]) * qsc[: len(rs)][::-1, None, None]).intersect(
                                  g.join(g.PointCollection(np.array([d["r"]["A"] for d in rs])), g.PointCollection(np.array([d["r"]["B"] for d in rs]))))))
         for site, rs, fn in variants:
             if len(rs) < 2:
